@@ -319,7 +319,7 @@ NamesOut(S, c, x, withEnd) ==
         sym == IF "s" \in ch.flags THEN "@" ELSE "="
         vis == {m \in Members(ch) : inch \/ "i" \notin S.users[m].modes}
     IN IF "s" \notin ch.flags \/ inch
-       THEN MapSet(vis, LAMBDA m : Num(S, c, "353", <<sym, x, Prefix(ch.members[m], S.conns[c].mp) \o m>>))
+       THEN MapSet(vis, LAMBDA m : Num(S, c, "353", <<x, Prefix(ch.members[m], S.conns[c].mp) \o m>>))
             \o (IF withEnd THEN << Num(S, c, "366", <<x>>) >> ELSE <<>>)
        ELSE (* a secret channel is shown to an outsider exactly like a missing one (C12) *)
             (IF withEnd THEN << Num(S, c, "366", <<x>>) >> ELSE <<>>)
